@@ -209,7 +209,7 @@ class DistributedNetwork(BaseManager):
         """
         # Explicit None checks because we can get 0 as branch level
         if peer.branch_level is not None and peer.branch_root is not None:
-            if not self.parent:
+            if not self.parent and peer not in self.children:
                 await self._set_parent(peer)
             else:
                 await peer.connection.disconnect(reason=CloseReason.REQUESTED)
